@@ -3,6 +3,16 @@
 import json, subprocess
 
 CHECKS = {
+ "C05": dict(
+   technique="runtime monitor of the acceptance => valid circuit implication: every program the real checker accepts is compiled under catch_unwind, validated, shape-checked against sizes computed by the harness' own type model, evaluated and decoded",
+   text="Exploration: generated fully annotated programs (must be accepted: converse clause), the same programs with literal suffixes / let annotations dropped at random (judged only when accepted), several pub fns per program, zero-sized types as parameters / returns / fields.",
+   note="No semantic oracle for suffix-free programs. Generator mask for KF-C05-1 (un-annotated bindings of suffix-free literals) in force and printed in DESIGN.md.",
+   design="DESIGN.md section 2 / C05"),
+ "C17": dict(
+   technique="fault-injection monitor: rule-breaking edits (29 rules, AST- and token-level) of accepted programs must all be rejected by the real type checker",
+   text="Exploration: for every generated, accepted, fully annotated base program each applicable site (3 sampled per rule in the quick tier, all in thorough) of each rule - operand/argument/return/branch/arm/annotation type, non-bool condition, shift amount, index type, unknown identifier/field/variant/type, assignment to immutable bindings (plain, compound, through accessors), use after scope end, wrong argument / field / payload / tuple-pattern counts, refutable let / for patterns, direct and mutual recursion, unused private fn, pub fn without parameters, cast of / match on unsupported types - plus pairs of different edits.",
+   note="Each edit is built to violate a documented rule; mutants rejected already by the parser are counted separately.",
+   design="DESIGN.md section 2 / C17"),
  "C09": dict(
    technique="round-trip monitor with an independent codec and a denotation function: every literal the API accepts (parsed text or programmatic value, incl. corrupted and alternative forms) must encode exactly as the value it denotes",
    text="Exploration: generated nested types (arrays/tuples/structs/enums over all primitive types), boundary-biased values; canonical text, alternative spellings (suffix-free numbers, trailing commas, permuted struct fields, repeat form), canonical and corrupted programmatic literals (permuted/duplicated/missing fields, wrong arity, out-of-range numbers, wrong tags, valid/inverted/overflowing/untyped ranges, repeat counts, wrong names) through parse_arg, literal_arg, Evaluator::set_literal, parse_output, Literal::parse/Display, set_<int>/TryFrom<EvalOutput>; identity circuit.",
